@@ -630,6 +630,11 @@ impl Stdfs {
                 dst_root.mash(src.path().trim_prefix(src_root.path()))
             };
 
+            // Nothing to do when an entry would be copied onto itself, copying would truncate it
+            if src.path() == dst_path {
+                continue;
+            }
+
             // Recreate links if were not following them
             if !cp.follow && src.is_symlink() {
                 // Copying into a directory might require creating it first
